@@ -12,7 +12,7 @@
 (***************************************************************************)
 EXTENDS Integers, Sequences, FiniteSets, TLC, Json
 
-CONSTANTS MaxRuns, MaxRows, LDepth, MaxReads
+CONSTANTS MaxRuns, MaxRows, LDepth, MaxReads, Slim      \* Slim: one style / keyword set / input kind (deeper run structure instead)
 
 VARIABLES sims, ver, lh, cur      \* cur: the log being written (a shape under construction) or NoLog
 lvars == <<sims, ver, lh, cur>>
@@ -45,8 +45,9 @@ Printed(sh, k) == IF k = Len(sh.runs) /\ sh.trunc >= 0 THEN (IF sh.trunc < sh.ru
 Tables(sh, salt, s0) == [k \in 1..Len(sh.runs) |-> [cols |-> sh.runs[k].cols, rows |-> [j \in 1..Printed(sh, k) |-> RowOf(sh.runs, k, j, salt, s0)]]]
 \* the domain: printed step ranges never go backwards from one (non-empty) table to the next
 NonEmpty(ts) == SelectSeq(ts, LAMBDA t : Len(t.rows) > 0)
-PrintedMonotone(ts) == LET ne == NonEmpty(ts) IN \A k \in 2..Len(ne) :
-    ne[k].rows[1][1] >= ne[k-1].rows[1][1] /\ ne[k].rows[Len(ne[k].rows)][1] >= ne[k-1].rows[Len(ne[k-1].rows)][1]
+\* (a restarted run never starts BEFORE its predecessor started; it may well end earlier -- a crashed restart)
+PrintedMonotone(ts) == LET ne == NonEmpty(ts) IN \A k \in 2..Len(ne) : ne[k].rows[1][1] >= ne[k-1].rows[1][1]
+EndsMonotone(ts) == LET ne == NonEmpty(ts) IN \A k \in 2..Len(ne) : ne[k].rows[Len(ne[k].rows)][1] >= ne[k-1].rows[Len(ne[k-1].rows)][1]
 WellFormed(sh) == Monotone(sh.runs) /\ (sh.trunc >= 0 => ~sh.timing \/ Len(sh.runs) > 1)
 
 \* ---- flatten, specified on step sets ------------------------------------------------------------------
@@ -66,13 +67,13 @@ FlatAll(ts) == [n |-> LET S == [k \in 1..Len(ts) |-> Len(ts[k].rows)] IN IF Len(
 LInit == sims = <<>> /\ ver = "none" /\ lh = <<>> /\ cur = NoLog
 \* a LAMMPS process writes a log: banner, then run after run, then it ends (normally, or cut short)
 NReads == Cardinality({k \in 1..Len(lh) : lh[k].act = "read"})
-StartLog == ~cur.open /\ NReads < MaxReads /\ \E st \in Styles : cur' = [runs |-> <<>>, open |-> TRUE, style |-> st] /\ UNCHANGED <<sims, ver, lh>>
+StartLog == ~cur.open /\ NReads < MaxReads /\ \E st \in (IF Slim THEN {CHOOSE x \in Styles : x.timing /\ x.banner = "new"} ELSE Styles) : cur' = [runs |-> <<>>, open |-> TRUE, style |-> st] /\ UNCHANGED <<sims, ver, lh>>
 AddRun == cur.open /\ Len(cur.runs) < MaxRuns /\
-          \E cs \in ColSets : \E n \in 1..MaxRows : \E rel \in (IF Len(cur.runs) = 0 THEN {"cont"} ELSE Rels) :
+          \E cs \in (IF Slim THEN {<<"Step", "Temp">>} ELSE ColSets) : \E n \in 1..MaxRows : \E rel \in (IF Len(cur.runs) = 0 THEN {"cont"} ELSE Rels) :
              LET runs2 == Append(cur.runs, [cols |-> cs, n |-> n, rel |-> rel]) IN
-             Monotone(runs2) /\ cur' = [cur EXCEPT !.runs = runs2] /\ UNCHANGED <<sims, ver, lh>>
+             cur' = [cur EXCEPT !.runs = runs2] /\ UNCHANGED <<sims, ver, lh>>
 \* the finished log is read: trunc = -1 complete, r >= 0: final block cut after r rows (0 = right after its header)
-Read == cur.open /\ Len(cur.runs) > 0 /\ \E trunc \in {-1, 0, 1} : \E append \in BOOLEAN : \E kind \in {"text", "path", "stream"} :
+Read == cur.open /\ Len(cur.runs) > 0 /\ \E trunc \in {-1, 0, 1} : \E append \in (IF Slim THEN {TRUE} ELSE BOOLEAN) : \E kind \in (IF Slim THEN {"text"} ELSE {"text", "path", "stream"}) :
     LET sh == [runs |-> cur.runs, trunc |-> trunc, banner |-> cur.style.banner, timing |-> cur.style.timing,
                version |-> cur.style.version, blanks |-> cur.style.blanks]
         base == IF append THEN sims ELSE <<>>
@@ -88,7 +89,7 @@ Read == cur.open /\ Len(cur.runs) > 0 /\ \E trunc \in {-1, 0, 1} : \E append \in
 Flatten == \E style \in {"first", "last", "all"} :
     /\ ~cur.open /\ Len(sims) > 0 /\ UNCHANGED <<sims, ver, cur>>
     /\ lh' = Append(lh, [act |-> "flatten", style |-> style,
-                         expect |-> IF style = "all" THEN {} ELSE FlatExpect(sims, style), nall |-> FlatAll(sims).n, sims |-> sims, version |-> ver])
+                         expect |-> IF style = "all" THEN {} ELSE FlatExpect(sims, style), nall |-> FlatAll(sims).n, sims |-> sims, version |-> ver, endsmonotone |-> EndsMonotone(sims)])
 LNext == Len(lh) < LDepth /\ (StartLog \/ AddRun \/ Read \/ Flatten)
 
 \* design-level: every step of every run appears exactly once in a first/last flattening
